@@ -134,7 +134,8 @@ CHECKS = {
         'reconstruction for QR/LQ, eigenvalue routines, two SVD drivers and Schur; Python-side: driver == factor+solve, A unmodified without '
         'ipiv, sorted outputs, ArithmeticError on exactly singular / non-positive-definite input, TypeError/ValueError on inconsistent sizes and types; '
         'every wrapper called on plain matrices and on the same data embedded in larger buffers (offset / leading-dimension keywords) must give the same numbers. '
-        'Over the argument checks regenerated from lapack.c (cwrap2lean.py): orgqr / ungqr / orglq / unglq skip the LAPACK call only for an empty result (theorems C18_*_quick_return).',
+        'Over the argument checks regenerated from lapack.c (cwrap2lean.py): orgqr / ungqr / orglq / unglq skip the LAPACK call only for an empty result (theorems C18_*_quick_return); '
+        'over the regenerated table of err_lapack statements (ccall2lean.py): every wrapper that passes &info reports any non-zero return code, negative as ValueError, positive as ArithmeticError.',
    design_ref='DESIGN.md 11.6',
    note='Level partial: the wrappers are judged through their results on generated inputs (orders 0..5); no model of the wrapper code exists '
         'beyond the regenerated argument checks and early returns (Gen/LapackWrap.lean). Trusted: Lean kernel, the harness (input construction, band-storage conversions), '
@@ -145,13 +146,14 @@ CHECKS = {
    text='The argument-checking prefix of all 34 wrappers of blas.c and all 60 wrappers of lapack.c is translated from the C source into Lean '
         'functions on every run; for each routine the theorem accept -> every array the routine touches is a matrix of the element type read, is '
         'present when the chosen job needs it, and contains the routine\'s footprint is re-proved for all integer arguments, flags, typecodes and '
-        'buffer sizes (ideal arithmetic), against hand-written footprint specifications of the reference BLAS / LAPACK; dense index paths are '
+        'buffer sizes (ideal arithmetic), against hand-written footprint specifications of the reference BLAS / LAPACK; every pointer the wrappers then hand to BLAS / LAPACK '
+        '(398 arguments, regenerated table) is proved to be the matrix buffer plus that matrix\'s own offset; dense index paths are '
         'proved in range. The translated decisions are compared with the real wrappers (boundary boxes for BLAS, grammar-based calls built from the '
         'keyword lists in the source for LAPACK) in a crash-safe worker whose allocator puts a guard page after every buffer; the C-int evaluation '
         'of the same checks is searched for accepted tuples with a footprint outside the buffers, which are executed on the gcc -O2 build. '
         'misc_solvers kernels, dense/sparse indexing and assignment, and LAPACK calls embedded in sentinel-filled buffers are probed under the same allocator.',
    design_ref='DESIGN.md 5 C19',
-   note='Trusted: Lean kernel, cwrap2lean (parser, emission), footprints.py, footprints_lapack.py, guard_alloc.h. The full-range statement in C int '
+   note='Trusted: Lean kernel, cwrap2lean (parser, emission), ccall2lean (regular-expression scan for pointer arguments), footprints.py, footprints_lapack.py, guard_alloc.h. The full-range statement in C int '
         'arithmetic is false: int overflow witnesses segfault 32 of 34 BLAS and 58 LAPACK wrappers (known findings, one per routine); the twelve '
         'misc_solvers kernels do not validate lengths (known findings). base.c products, sparse.c and misc_solvers.c are probed, not translated.',
    technique='Lean 4 proof over Lean functions translated from C + differential run against the real wrappers under guard pages + overflow witness search'),
